@@ -4,3 +4,5 @@
 package main
 
 func vhook(point string, args ...interface{}) {}
+
+func vroot(h *SnowflakeHeap) string { return "" }
